@@ -170,7 +170,7 @@ PROPS = {
               assumptions=["the correspondence samples histories; the bounded-exhaustive family of the property's quantifier (8 machine sets of 1-3 small machines, full event alphabet "
                            "with known/unknown ids, 4 clock patterns incl. backwards, 6^3 scripted draw words around the dyadic thresholds) is enumerated completely at depth 2 in the thorough "
                            "tier and strided at depth 3; quick tier strides both"]),
-    "C01": fw([("general", 2500, 60000), ("czcycle", 1500, 40000)], {"res", "len", "L"}, mech=["LR", "CZ", "SIG", "END", "batch"],
+    "C01": fw([("general", 2500, 60000), ("czcycle", 1500, 40000), ("extsample", 600, 20000)], {"res", "len", "L"}, mech=["LR", "CZ", "SIG", "END", "batch"],
               assumptions=["u64 packet counters are modelled as unbounded naturals (overflow needs 2^64 reported events)",
                            "machines have the shape of the Rust types (13 transition slots); proved for everything the bincode decoder accepts (C11)"]),
     "C02": fw([("general", 2500, 40000)], {"A", "RP", "G", "res", "len"}, mech=["aP"],
